@@ -16,7 +16,8 @@ TECHNIQUE = ("fault injection over a catalogue of (public call, invalid-argument
              "low-level write probes classify refusals as clean (no write attempted) or rolled back")
 RULE = ("Case = one (call site, fault class) pair of the catalogue injected into one prior state (fixture + 0-40 random valid "
         "operations; each shard builds its own states).  Judged when the call raises: snapshot and raw scan before == after, then "
-        "the valid retry must succeed.  Distinct by (call site, fault class, outcome in {refused_clean, refused_after_write, "
+        "the valid retry must succeed.  Fault classes include text HDF5 cannot store (embedded NUL, lone surrogate) as name, type, definition, label, unit, "
+        "unit / label list, property value, text element and frame cell.  Distinct by (call site, fault class, outcome in {refused_clean, refused_after_write, "
         "accepted, not_applicable}); trivial = pairs that were not applicable to the state.")
 ASSUMPTIONS = ["a call that is accepted is outside C12 (A11): it is counted, the file state is re-read, and the next injection starts from the new state",
                "raw HDF5 comparison ignores empty attribute-less container groups (no API call can see them)",
